@@ -29,3 +29,14 @@ func (g *Graph) VerifSnapshot() (out, in map[interface{}]map[interface{}]int, ha
 	}
 	return out, in, hash
 }
+
+// VerifStepHook, when set, is called once per iteration of the package's
+// main loops (path reconstruction, Dijkstra, DFS, Kahn, Tarjan). It must be
+// set before any concurrent use.
+var VerifStepHook func()
+
+func verifStep() {
+	if h := VerifStepHook; h != nil {
+		h()
+	}
+}
